@@ -509,14 +509,25 @@ func AddCrashes(spec *RunSpec, seed uint64, n int, estSteps int) {
 	}
 	h := 50
 	ops := []OpSpec{{Kind: OpOpen, H: h, Auto: r.Bool(0.5)}, {Kind: OpRead, H: h}}
+	if r.Bool(0.5) {
+		// the operator removes a lock file left by a dead process
+		ops = append([]OpSpec{{Kind: OpRmLock, H: h}}, ops...)
+	}
 	g := &genCtx{r: r, p: &Profile{RefsPerTxn: [2]int{1, 2}}, names: defaultNames, nextID: 5000, cfg: spec.Cfg}
-	ops = append(ops, OpSpec{Kind: OpAdd, H: h, Txns: []TxnSpec{g.txn()}})
+	// Add, Clean and CompactAll in any order (Clean may come first, while
+	// the left-overs of the crash are still newer than the stack)
+	mid := []OpSpec{{Kind: OpAdd, H: h, Txns: []TxnSpec{g.txn()}}}
 	if r.Bool(0.5) {
-		ops = append(ops, OpSpec{Kind: OpClean, H: h})
+		mid = append(mid, OpSpec{Kind: OpClean, H: h})
 	}
 	if r.Bool(0.5) {
-		ops = append(ops, OpSpec{Kind: OpCompactAll, H: h})
+		mid = append(mid, OpSpec{Kind: OpCompactAll, H: h})
 	}
+	for i := len(mid) - 1; i > 0; i-- {
+		j := r.Intn(i + 1)
+		mid[i], mid[j] = mid[j], mid[i]
+	}
+	ops = append(ops, mid...)
 	ops = append(ops, OpSpec{Kind: OpRead, H: h}, OpSpec{Kind: OpClose, H: h})
 	spec.After = append(spec.After, TaskSpec{Name: "restart", Ops: ops})
 }
